@@ -69,8 +69,10 @@ def grammar_sessions(ctx, reps):
                         args = [abs(a) % 500 for a in args]
                     t = rng.randrange(len(sim.trx))
                     s.cmd(t, "CMD " + " ".join([v] + [str(a) for a in args]), rport=rng.choice([45000, 5801, 6801, 1]))
-                    if rng.random() < 0.1:
-                        s.cmd(t, rng.choice([b"", b"RSP POWERON 0\0", b"XCMD POWERON\0", b"cmd POWERON\0", b"IND CLOCK 5\0"]))
+                    if rng.random() < 0.2:
+                        s.cmd(t, rng.choice([b"", b"RSP POWERON 0\0", b"XCMD POWERON\0", b"cmd POWERON\0", b"IND CLOCK 5\0",
+                                             b"\xffCMD POWERON\0", b"\xff\xfeCMD POWEROFF\0", b"C\x80MD RFMUTE 1\0", b"\xc3CMD SETFORMAT 1\0",
+                                             b"\x80CMD RXTUNE 935200\0", b" CMD POWEROFF\0", b"\0CMD POWEROFF\0"]))
                 out.append(s.trace())
     return out
 
